@@ -470,7 +470,13 @@ pub fn gen_program(rng: &mut Rng, g: &ProgGen) -> Program {
   let chars = all_chars();
   let mut p: Program = vec![];
   let n_alias = match rng.below(10) { 0..=2 => 0, 3..=6 => 1, 7..=8 => 2, _ => 3 };
-  let names: Vec<String> = rng.sample(&ALIAS_NAMES, n_alias).iter().map(|s| s.to_string()).collect();
+  let mut names: Vec<String> = rng.sample(&ALIAS_NAMES, n_alias).iter().map(|s| s.to_string()).collect();
+  // names related to each other: a concatenation of two others, a prefix, another case (names are opaque strings;
+  // anything keyed on them must keep such names apart)
+  if names.len() >= 2 && rng.chance(1, 5) {
+    let d = match rng.below(4) { 0 => format!("{}{}", names[0], names[1]), 1 => format!("{}{}", names[1], names[0]), 2 => names[0].to_uppercase(), _ => format!("{}@", names[0]) };
+    if !names.contains(&d) { names.push(d); }
+  }
   let mut alias_entries: Vec<Entry> = vec![];
   for name in &names {
     let nd = rng.range(1, 3);
@@ -524,8 +530,10 @@ pub fn gen_program(rng: &mut Rng, g: &ProgGen) -> Program {
   if rng.chance(1, 6) {
     if let Some(Entry::Single { mods, key, to, .. }) = others.iter().find(|e| matches!(e, Entry::Single { mods, .. } if !mods.is_empty())).cloned() {
       let mut m2 = mods.clone();
-      match rng.below(3) {
-        0 => { m2.remove(rng.below(m2.len())); },
+      match rng.below(5) {
+        // the same trigger set written in another order
+        3 | 4 if m2.len() >= 2 => { let i = rng.below(m2.len()); let j = (i + 1 + rng.below(m2.len() - 1)) % m2.len(); m2.swap(i, j); },
+        0 | 3 | 4 => { m2.remove(rng.below(m2.len())); },
         1 => { let i = rng.below(m2.len()); let k = *rng.pick(&PLAIN_MODS); if !m2.contains(&Md::Key(k)) { m2[i] = Md::Key(k); } },
         _ => { if !names.is_empty() { let a = Md::Alias(rng.pick(&names).clone()); if !m2.contains(&a) { let i = rng.below(m2.len()); m2[i] = a; } } }
       }
